@@ -23,13 +23,24 @@ struct VReader {
 #endif
 // Arena allocator with a ghost ledger. reallocate is in place (chunks have fixed size).
 // failmask bit k makes allocator call number k (allocate or reallocate) fail.
+#ifndef ARENA_LEDGER
+struct Arena : Allocator {
+  alignas(8) char mem[ARENA_N][ARENA_CHUNK]; unsigned next = 0; unsigned failmask=0;
+  void* allocate(size_t n) override { if (n > ARENA_CHUNK || next >= ARENA_N) return nullptr; return mem[next++]; }
+  void deallocate(void*) override {}
+  void* reallocate(void* p, size_t n) override { return n <= ARENA_CHUNK ? p : nullptr; }
+  void reset(unsigned fm = 0) { next = 0; }
+};
+#else
 struct Arena : Allocator {
   alignas(8) char mem[ARENA_N][ARENA_CHUNK];
   unsigned char live[ARENA_N];      // 1 while chunk i is handed out
   unsigned next = 0, calls = 0, failmask = 0;
   unsigned n_alloc = 0, n_free = 0, n_realloc = 0, bad = 0;  // bad: foreign / dead pointer given back
   size_t max_request = 0;
-  int idx(void* p) { for (unsigned i = 0; i < ARENA_N; i++) if (p == (void*)mem[i]) return int(i); return -1; }
+  // index of the chunk p points to; a pointer that is not a chunk start (foreign, interior) gives -1.
+  // Loop-free on purpose (symbolic execution cost); comparing a foreign pointer trips CBMC's same-object check.
+  int idx(void* p) { size_t off = size_t((char*)p - &mem[0][0]); if (off >= sizeof(mem) || off % ARENA_CHUNK) return -1; return int(off / ARENA_CHUNK); }
   void* allocate(size_t n) override {
     unsigned k = calls++; n_alloc++; if (n > max_request) max_request = n;
     if ((failmask >> k) & 1) return nullptr;
@@ -44,6 +55,7 @@ struct Arena : Allocator {
     if (!p) { if (n > ARENA_CHUNK || next >= ARENA_N) return nullptr; live[next] = 1; return mem[next++]; }
     return n <= ARENA_CHUNK ? p : nullptr;
   }
-  void reset(unsigned fm = 0) { next = calls = n_alloc = n_free = n_realloc = bad = 0; max_request = 0; failmask = fm; for (unsigned i = 0; i < ARENA_N; i++) live[i] = 0; }
+  void reset(unsigned fm = 0) { next = calls = n_alloc = n_free = n_realloc = bad = 0; max_request = 0; failmask = fm; memset(live, 0, sizeof live); }
   unsigned liveCount() { unsigned c = 0; for (unsigned i = 0; i < ARENA_N; i++) c += live[i]; return c; }
 };
+#endif
